@@ -65,7 +65,25 @@ impl Ctx {
     /// detached signature: every bit of the signature packet, every bit of the content, other keys
     fn detached(&mut self, key: &SignedSecretKey, others: &[SignedPublicKey], text: bool, hash: HashAlgorithm, data: &[u8], exhaustive: bool, cls: &str) {
         let pk = SignedPublicKey::from(key.clone());
-        let sig = if text { DetachedSignature::sign_text_data(Rng::new(9), &key.primary_key, &Password::empty(), hash, data) }
+        // "-rich" classes: a hashed area with subpackets of kinds the library does not know (not critical), a notation and a
+        // policy URI beside the usual ones -- every octet of the hashed area is signed, whatever the library makes of it
+        let sig = if cls.contains("-rich") {
+            (|| -> pgp::errors::Result<DetachedSignature> {
+                use pgp::packet::{Notation, SignatureConfig, SignatureType, Subpacket, SubpacketData};
+                use pgp::types::{KeyDetails, Timestamp};
+                let mut c = SignatureConfig::from_key(Rng::new(9), &key.primary_key, if text { SignatureType::Text } else { SignatureType::Binary })?;
+                c.hash_alg = hash;
+                c.hashed_subpackets = vec![
+                    Subpacket::regular(SubpacketData::SignatureCreationTime(Timestamp::from_secs(1_700_000_000)))?,
+                    Subpacket::regular(SubpacketData::Other(61, vec![1u8, 2, 3, 4, 5].into()))?,
+                    Subpacket::regular(SubpacketData::IssuerFingerprint(key.primary_key.fingerprint()))?,
+                    Subpacket::regular(SubpacketData::Experimental(105, vec![9u8, 8, 7].into()))?,
+                    Subpacket::regular(SubpacketData::Notation(Notation { readable: true, name: "n@example.org".into(), value: b"v"[..].into() }))?,
+                    Subpacket::regular(SubpacketData::PolicyURI("https://example.org/p".into()))?,
+                ];
+                Ok(DetachedSignature::new(c.sign(&key.primary_key, &Password::empty(), data)?))
+            })()
+        } else if text { DetachedSignature::sign_text_data(Rng::new(9), &key.primary_key, &Password::empty(), hash, data) }
                   else { DetachedSignature::sign_binary_data(Rng::new(9), &key.primary_key, &Password::empty(), hash, data) };
         let Ok(sig) = sig else { self.out.case("", &[], &["sign".into()], "ERR sign", Some(false), cls); return; };
         let ok0 = sig.verify(&pk, data).is_ok();
@@ -434,6 +452,7 @@ fn main() {
         let exhaustive = thorough || i < 2 || name.starts_with("ecdsa");
         cx.detached(key, &others, false, h, b"hello world, this is signed\n", exhaustive, &format!("detached-bin-{name}"));
         cx.detached(key, &others, true, h, b"line one\nline two\r\nthree \r x\n", exhaustive && i < 2, &format!("detached-text-{name}"));
+        if i < 4 || thorough { cx.detached(key, &others[..1], i % 2 == 1, h, b"signed with a rich hashed area\n", i < 2 || thorough, &format!("detached-rich-{name}")); }
         // text documents that end right at the line-ending normaliser's 512-octet window (one octet below, at, above
         // it and at the second window): an inserted or removed CR / LF at the edge must not go unnoticed
         if i < 2 || thorough {
